@@ -1045,10 +1045,13 @@ impl<'a, const N: usize> Props for __PrivateMacroProps<'a, N> {
     fn get<'v, K: ToStr>(&'v self, key: K) -> Option<Value<'v>> {
         let key = key.to_str();
 
+        // The array is sorted by the identifiers of its key-values, but `#[emit::key]`
+        // can give them any name at runtime, so it can't be binary searched by key.
+        // Return the first value `for_each` would yield for the key instead
         self.0
-            .binary_search_by(|(k, _)| k.cmp(&key))
-            .ok()
-            .and_then(|i| self.0[i].1.as_ref().map(|v| v.by_ref()))
+            .iter()
+            .filter(|(k, _)| *k == key)
+            .find_map(|(_, v)| v.as_ref().map(|v| v.by_ref()))
     }
 
     fn is_unique(&self) -> bool {
